@@ -8,7 +8,7 @@ import itertools
 
 from mc.engine import hbfs, par
 from mc.engine.report import Violation
-from mc.engine.seams import reset_library
+from mc.engine.seams import reset_library, new_model
 
 import ECAgent.Core as Core
 
@@ -57,6 +57,10 @@ def scenarios(tier):
             for actor in range(n):
                 for act in actions_for(n, actor):
                     yield {'leg': 'one_action', 'prios': v, 't': t, 'acts': [dict(act, actor=actor)]}
+                    if act['kind'] == 'add' and act['prio'] in (1, -1):
+                        # the system registered mid-timestep is a veteran: the same object served an earlier model
+                        for k in (1, 2, 3):
+                            yield {'leg': 'veteran', 'prios': v, 't': t, 'acts': [dict(act, actor=actor)], 'veteran': k}
     # the same scenarios driven by ONE execute(3) call, and once more with an independent model stepped from inside
     # the acting system's turn
     for v in vectors(maxlen):
@@ -107,7 +111,7 @@ def scenarios(tier):
 def run_scenario(case):
     reset_library()
     prios, t_act, acts = case['prios'], case['t'], case['acts']
-    model = Core.Model(seed=1)
+    model = new_model(seed=1)
     events = []
     stamps = []       # timestep of every 'run' event (parallel to the run events)
     starts = {}
@@ -120,8 +124,11 @@ def run_scenario(case):
             super().__init__(sid, model, priority=prio)
             self.key = key
             self.todo = []
+            self.muted = False
 
         def execute(self):
+            if self.muted:
+                return
             t_now = model.systems.timestep
             if t_now not in starts:
                 starts[t_now] = dict(reg)      # registry at the start of this timestep (before any action in it)
@@ -138,7 +145,7 @@ def run_scenario(case):
 
     def run_sandbox():
         # an independent little model is built and stepped from inside this system's turn
-        sb = Core.Model(seed=5)
+        sb = new_model(seed=5)
 
         class Q(Core.System):
             def execute(self):
@@ -206,6 +213,14 @@ def run_scenario(case):
         elif kind == 'add':
             key = f'n{len([k for k in objs if k.startswith("n")])}'
             o = objs[key] = S(key, key, act['prio'])
+            if case.get('veteran'):
+                # the object ran in an earlier, unrelated model for some timesteps before it is handed to this one
+                old = new_model(seed=8)
+                o.model, o.muted = old, True
+                old.systems.add_system(o)
+                old.execute(case['veteran'])
+                old.systems.remove_system(o.id)
+                o.model, o.muted = model, False
             register(o)
             events.append(('added', key))
 
@@ -301,8 +316,14 @@ def chunk_fn(ctx, chunk):
                 return
 
 
+# the cheap legs run once more under the runner's ambient configurations (python -O, other logger levels)
+AMBIENT_LEGS = True
+
+
 def run(ctx):
     cases = list(scenarios(ctx.tier))
+    if ctx.small:
+        cases = [c for c in cases if c['leg'] == 'one_action']
     size = max(1, len(cases) // (ctx.procs * 4))
     par.pmap(ctx, chunk_fn, [cases[i:i + size] for i in range(0, len(cases), size)], procs=ctx.procs)
     for c in (cases[0], cases[len(cases) // 3], cases[-1]):
